@@ -1,0 +1,20 @@
+//go:build verif
+
+package routing
+
+import (
+	"lunar/engine/config"
+	"lunar/engine/streams"
+)
+
+// VerifC14FlowsEndpointsRequest is an exporting shim for the external
+// verification harness (property C14): the managed-endpoint request the
+// engine registers with the proxy for the flows of an initialized stream.
+// No behaviour of its own: it calls buildHAProxyFlowsEndpointsRequest the way
+// initializeStreams does, on a manager that holds just that stream.
+func VerifC14FlowsEndpointsRequest(stream *streams.Stream) *config.HAProxyEndpointsRequest {
+	rd := &HandlingDataManager{}
+	rd.isStreamsEnabled = true
+	rd.stream = stream
+	return rd.buildHAProxyFlowsEndpointsRequest()
+}
